@@ -555,6 +555,14 @@ func csvReadSection(r *tx.Rng, w *tx.W, size int, opt map[string]string) {
 		typs = map[string]string{"e": "enum"}
 		enums = map[string][]string{}
 		headers = nil
+		if r.Bool() {
+			// the same values declared (255 declared values are the legal maximum, 256 are one too many)
+			decl := make([]string, enumCard)
+			for i := range decl {
+				decl[i] = "v" + strconv.Itoa(i)
+			}
+			enums["e"] = decl
+		}
 	}
 	cells := map[string]bool{}
 	for _, row := range d.cells {
